@@ -203,6 +203,42 @@ template <unsigned N> static void cat_get(const std::uint64_t (&keys)[N]) {
   qstate();
   WITNESS();
 }
+// C01, last clause: a value view obtained earlier stays readable and unchanged for as long as its entry exists (OLC: until the caller's next quiescent
+// state), whatever else is inserted or removed meanwhile - growth and shrink of the node that holds the entry, prefix splits above it, collapse onto it.
+// The view's bytes are re-read through the ORIGINAL pointer after each step; CBMC's pointer checks flag a view into a freed or moved leaf.
+#if DBKIND != 1
+template <unsigned N, int MODE> static void view_stable(const std::uint64_t (&keys)[N], unsigned held) {   // MODE 0: ONE symbolic insert, MODE 1: ONE symbolic remove (two symbolic operations exhaust the solver's memory)
+  static db_t d;
+  build(d, keys, N);
+  auto r = d.get(keys[held]);
+  PROP(r.has_value(), "C01: get finds a key iff it was inserted");
+  const auto* p = reinterpret_cast<const std::uint8_t*>(&*r->begin());
+  const std::size_t n = r->size();
+  PROP(n == vlen(held), "C01: get yields the bytes of the insert that created the entry");
+  const std::uint64_t k = in_u64(); const std::uint8_t v = in_u8();
+  ASSUME(k != keys[held]);
+  bool ins = false, rem = false;
+  if constexpr (MODE == 0) {
+  ins = d.insert(k, vv(&v, 1));                                   // any key: add / grow / leaf split / prefix split (or duplicate)
+  for (std::size_t i = 0; i < n; i++) PROP(p[i] == static_cast<std::uint8_t>(held + 1), "C01: a value view obtained earlier stays readable and unchanged while its entry exists (after an insert of any other key)");
+  } else {
+  rem = d.remove(k);                                              // any other key: remove / shrink / collapse onto the holder (or absent)
+  for (std::size_t i = 0; i < n; i++) PROP(p[i] == static_cast<std::uint8_t>(held + 1), "C01: a value view obtained earlier stays readable and unchanged while its entry exists (after a remove of any other key)");
+  }
+  OBSERVE(ins); OBSERVE(rem);
+#if DBKIND == 2
+  PROP(d.remove(keys[held]), "C01: remove succeeds iff the key is present");   // OLC: even the entry's own removal leaves the view readable until the next quiescent state
+  for (std::size_t i = 0; i < n; i++) PROP(p[i] == static_cast<std::uint8_t>(held + 1), "C01: OLC index: a value view stays readable and unchanged at least until the caller's next quiescent state, even if the entry is removed");
+#endif
+  qstate();
+  WITNESS();
+}
+HARNESS(view_ins_i4_4) { view_stable<4, 0>(K_i4_4, 2); }           // full I4: the insert grows it to I16
+HARNESS(view_rem_i16_5) { view_stable<5, 1>(K_i16_5, 2); }         // min-size I16: the remove shrinks it to I4
+HARNESS(view_rem_collapse) { view_stable<3, 1>(K_collapse, 0); }   // the holder is the leaf next to a two-child inner node: the remove collapses that node / the root onto it
+HARNESS(view_ins_collapse) { view_stable<3, 0>(K_collapse, 0); }   // prefix split / leaf split around the holder
+HARNESS(view_ins_leaf) { view_stable<1, 0>(K_leaf, 0); }           // root leaf: leaf split
+#endif
 // larger size classes: built by concrete inserts (growth chain I4 -> I16 -> I48 -> I256), optionally shrunk again by concrete removes, then ONE symbolic get
 template <unsigned N, unsigned NDEL> static void big_get() {
   static db_t d;
